@@ -64,7 +64,7 @@ Assign == /\ Have(mem, "array") /\ (Have(mem, "traj") \/ Have(mem, "pt"))
           /\ UNCHANGED <<cur, store, good>>
 BuildMsm == /\ Have(mem, "assign") /\ mem' = [mem EXCEPT !["msm"] = mem["assign"]] /\ UNCHANGED <<cur, store, good>>
 
-FileArts == GridArts \cup {"energy"}           \* what the workflows persist between rules (pt and rate files behave alike)
+FileArts == GridArts \cup {"energy", "pt"}     \* what the workflows persist between rules (rate files behave alike)
 SmallFileArts == {"volumes", "energy"}         \* quick configuration: `FileArts <- SmallFileArts' (the other files behave alike)
 Next == (\E s \in Specs : NewSpec(s)) \/ BuildGrid \/ (\E a \in FileArts : Write(a) \/ Read(a))
         \/ GenPT \/ ComputeEnergy \/ BuildRate \/ Decompose \/ Simulate \/ Assign \/ BuildMsm
